@@ -1,5 +1,6 @@
 import MaddyVerif.Model.Queue
 import MaddyVerif.Model.QueueHop
+import MaddyVerif.Model.QueueRestart
 import Driver.Util
 namespace Driver.C01
 open MaddyVerif.Queue Driver
@@ -165,18 +166,62 @@ def handleHop : List String → String
 
 end hop
 
+/-! ### optional tokens of `C01 run`: restarts and envelope -/
+section ext
+open MaddyVerif.QueueRestart
+
+/-- `R=-` | `R=k.k.…` : number of restarts before attempt `k` -/
+def parseRestarts (s : String) : Option (Nat → Nat) :=
+  match s.toList with
+  | 'R' :: '=' :: rest =>
+    if rest == ['-'] then some (fun _ => 0) else
+    ((String.ofList rest).splitOn ".").mapM String.toNat? |>.map (fun ks i => ks.count i)
+  | _ => none
+
+/-- non-ASCII local part: shapes `n`, `m`; mailboxes 2 and 5 of the harness's table -/
+def shapeNA (c : Char) : Bool := c == 'n' || c == 'm'
+def mailboxNA (r : Nat) : Bool := (r - 1) % 6 == 1 || (r - 1) % 6 == 4
+
+/-- `E=<0|1><sender shape><shape of the address the client named, per recipient | ->` -/
+def parseEnv (rs : List Nat) (s : String) : Option Env :=
+  match s.toList with
+  | 'E' :: '=' :: u :: sd :: forms =>
+    if forms.length != rs.length || !(u == '0' || u == '1') || !"animj".toList.contains sd
+       || forms.any (fun c => !"-animj".toList.contains c) then none else
+    let named : Nat → Bool := fun r =>
+      match (rs.zip forms).find? (fun p => p.1 == r) with
+      | some p => if p.2 == '-' then mailboxNA r else shapeNA p.2
+      | none => false
+    let env : Env := ⟨u == '1', shapeNA sd, named⟩
+    -- outside the input space: a non-ASCII local part without SMTPUTF8
+    if !env.utf8 && (env.senderNA || rs.any (fun r => named r || mailboxNA r)) then none else some env
+  | _ => none
+
+def parseExt (rs : List Nat) : List String → Option ((Nat → Nat) × Env)
+  | [] => some (fun _ => 0, ⟨true, false, fun _ => false⟩)
+  | [r] => (parseRestarts r).map (·, ⟨true, false, fun _ => false⟩)
+  | [r, e] => do
+    let rr ← parseRestarts r
+    let env ← parseEnv rs e
+    pure (rr, env)
+  | _ => none
+
+end ext
+
 def handle : List String → String
   | "hop" :: rest => handleHop rest
-  | ["run", mt, kind, dsn, rcpts, plans] =>
+  | "run" :: mt :: kind :: dsn :: rcpts :: plans :: ext =>
+    -- optional tokens: R=<restart before attempt k>.… and E=<utf8><sender form><original-recipient forms>
     match mt.toNat?, (rcpts.splitOn ",").mapM String.toNat? with
     | some maxTries, some rs =>
-      match (plans.splitOn ";").mapM (parsePlan rs) with
-      | some ps =>
+      match (plans.splitOn ";").mapM (parsePlan rs), parseExt rs ext with
+      | some ps, some (restarts, env) =>
         let k := if kind == "p" then Kind.partialD else Kind.atomic
         let planAt : Nat → Plan := fun i => (ps[i]?).getD allOk
-        let evs := run maxTries k (dsn == "1") planAt (maxTries + 1) 0 ⟨rs, fun _ => 0⟩
-        " ".intercalate (evs.filterMap showEv)
-      | none => "bad-op"
+        let res := MaddyVerif.QueueRestart.runR maxTries k (dsn == "1") env planAt restarts (maxTries + 1) 0
+          (MaddyVerif.QueueRestart.accepted rs)
+        " ".intercalate (res.1.filterMap showEv ++ (if res.2 then ["BROKEN"] else []))
+      | _, _ => "bad-op"
     | _, _ => "bad-op"
   | "outcomes" :: mt :: kind :: dsn :: rcpts :: plans :: _ =>
     -- terminal outcomes only, canonically ordered: the queue on top of the real remote target
